@@ -300,17 +300,28 @@ Section S.
 
   Lemma attrs_missing : forall a : attrs,
     f_miss (spec_of_attrs V a) =
-      if a_option a then DefaultTo (a_type_default a)
-      else match a_default a with DefWord => DefaultTo (a_type_default a) | DefPath => DefaultTo (a_path_default a) | DefAbsent => Required end.
+      match a_default a with
+      | DefPath => DefaultTo (a_path_default a)
+      | DefWord => DefaultTo (a_type_default a)
+      | DefAbsent => if a_option a then DefaultTo (a_type_default a) else Required
+      end.
   Proof. reflexivity. Qed.
 
   Lemma attrs_policy : forall a : attrs,
     f_dup (spec_of_attrs V a) =
       (if a_duplicated a then Duplicated else if a_take_last a then TakeLast else Once)
     /\ f_miss (spec_of_attrs V a) =
-      (if a_option a then DefaultTo (a_type_default a)
-       else match a_default a with DefWord => DefaultTo (a_type_default a) | DefPath => DefaultTo (a_path_default a) | DefAbsent => Required end).
+      (match a_default a with
+       | DefPath => DefaultTo (a_path_default a)
+       | DefWord => DefaultTo (a_type_default a)
+       | DefAbsent => if a_option a then DefaultTo (a_type_default a) else Required
+       end).
   Proof. intros a. split; reflexivity. Qed.
+
+  (* `default = "fn"` is the field's default whatever the type *)
+  Lemma attrs_default_fn_wins : forall a : attrs,
+    a_default a = DefPath -> f_miss (spec_of_attrs V a) = DefaultTo (a_path_default a).
+  Proof. intros a H. cbn. unfold miss_of_attrs. rewrite H. reflexivity. Qed.
 
   Lemma attrs_alias_replaces_name : forall (a : attrs) al rest,
     a_aliases a = al :: rest ->
@@ -345,12 +356,15 @@ Section S.
   Proof. intros tbl kvs OK. apply visit_is_spec. exact OK. Qed.
 End S.
 
-Lemma option_ignores_default_fn : exists (a : field_attrs N),
-  a_default a = DefPath /\ f_miss (spec_of_attrs N a) <> DefaultTo (a_path_default a).
-Proof.
-  exists (mk_attrs [111%N] [] [] false false true DefPath 0%N 7%N). split; [reflexivity|].
-  cbn. intros H. discriminate H.
-Qed.
+(* regression example (was the witness of finding option-default-fn): struct DOF
+   { #[jomini(default = "default_some_seven")] o: Option<u8>, n: u8 } on `n=1` *)
+Lemma option_default_fn_regression :
+  let tbl := [mk_attrs [111%N] [] [] false false true DefPath 0%N 7%N;
+              mk_attrs [110%N] [] [] false false false DefAbsent 0%N 0%N] in
+  f_miss (spec_of_attrs N (mk_attrs [111%N] [] [] false false true DefPath 0%N 7%N)) = DefaultTo 7%N
+  /\ visit_attrs N tbl [(KStr [110%N], Ok 1%N)] = Ok [OVal 7%N; OVal 1%N]
+  /\ visit_attrs N tbl [(KStr [111%N], Ok 3%N); (KStr [110%N], Ok 1%N)] = Ok [OVal 3%N; OVal 1%N].
+Proof. vm_compute. repeat split; reflexivity. Qed.
 
 (* the order among the occurrences of ONE take_last field matters (by definition of take_last): the
    last sentence of the statement holds for rearrangements that keep each field's own sequence *)
